@@ -39,6 +39,8 @@ MUTS = {
     "LeaderCh never receives the loss of leadership"),
  "c18-no-false-when-new-leader-known": ("C18", "raft.go", "		if notify != nil {\n			select {\n			case notify <- false:", "		if notify != nil && r.Leader() == \"\" {\n			select {\n			case notify <- false:",
     "NotifyCh misses the loss of leadership when the step-down was caused by a request that names the new leader"),
+ "c18-leader-set-before-term-check": ("C18", "raft.go", "	// Ignore an older term\n	if a.Term < r.getCurrentTerm() {\n		return\n	}\n\n	// Increase the term if we see a newer one, also transition to follower\n	// if we ever get an appendEntries call", "	if len(a.Addr) > 0 {\n		r.setLeader(r.trans.DecodePeer(a.Addr), ServerID(a.ID))\n	}\n	// Ignore an older term\n	if a.Term < r.getCurrentTerm() {\n		return\n	}\n\n	// Increase the term if we see a newer one, also transition to follower\n	// if we ever get an appendEntries call",
+    "the sender of an AppendEntries is recorded as leader before its term is checked: a deposed leader's stale request makes a follower name it as leader of the new term"),
  "c18-leader-not-cleared": ("C18", "raft.go", "func (r *Raft) setState(state RaftState) {\n	r.setLeader(\"\", \"\")", "func (r *Raft) setState(state RaftState) {\n	if state != Candidate {\n		r.setLeader(\"\", \"\")\n	}",
     "the known leader is not cleared when a follower becomes candidate: it keeps naming the old leader in the new term"),
  "c15-rename-before-meta": ("C15", "file_snapshot.go", "	// Write out the meta data\n	if err := s.writeMeta(); err != nil {\n		s.logger.Error(\"failed to write metadata\", \"error\", err)\n		return err\n	}\n\n	verifFSHook(\"close.meta\", s.dir)\n	// Move the directory into place\n	newPath := strings.TrimSuffix(s.dir, tmpSuffix)\n	if err := os.Rename(s.dir, newPath); err != nil {\n		s.logger.Error(\"failed to move snapshot into place\", \"error\", err)\n		return err\n	}\n",
